@@ -17,7 +17,7 @@ func plan(prop string) []scenarioDef {
 	case "C02":
 		return []scenarioDef{{"NET-blockproof", 1, genProofConfig, RunNet}}
 	case "C18":
-		return []scenarioDef{{"UNIT-leader", 1, genLeaderConfig, RunLeaderUnit}}
+		return []scenarioDef{{"UNIT-leader", 3, genLeaderConfig, RunLeaderUnit}, {"NET", 1, genNetConfig, RunNet}}
 	case "C05":
 		return []scenarioDef{{"NET-liveness", 4, genLivenessConfig, RunNet}, {"RT", 1, genRTConfig, RunRT}}
 	case "C12", "C13":
@@ -30,7 +30,12 @@ func plan(prop string) []scenarioDef {
 		return []scenarioDef{{"COMP-timer", 20, genTimerConfig, RunTimerComp}, {"RT", 1, genRTConfig, RunRT}}
 	case "C17":
 		return []scenarioDef{{"COMP-filter", 39, genFilterConfig, RunFilterComp}, {"COMP-filter-sweep", 1, genFilterSweepConfig, RunFilterSweep}}
+	case "C01", "C03", "C04":
+		// oracles evaluated at the commit callback hold on every shape: mostly plain NET runs, and one run in six on
+		// the RT shape (slow / blocking / failing consumers on one or all nodes, worker-select control, preemptions)
+		return []scenarioDef{{"NET", 5, genNetConfig, RunNet}, {"RT", 1, genRTConfig, RunRT}}
 	default:
+		// message-level oracles (C07 - C11) attribute effects to the delivery made in the same step: NET only
 		return []scenarioDef{netScenario}
 	}
 }
